@@ -768,6 +768,87 @@ class Facts:
                 self.renamed[k] = c[0]
         return json.loads(text) if text else d
 
+    @staticmethod
+    def _ty_deref(ty):
+        ty = ty.strip()
+        for pre in ("&mut ", "&", "*mut ", "*const "):
+            if ty.startswith(pre):
+                return re.sub(r"^'\w+ ", "", ty[len(pre):].strip())
+        m = re.match(r"(alloc::boxed::Box|alloc::rc::Rc|alloc::sync::Arc|core::cell::RefMut|core::cell::Ref|core::pin::Pin)<(?:'\w+, )?(.*)>$", ty)
+        if m:
+            inner = m.group(2)
+            # Box<T, A> / Rc<T, A>: drop a trailing allocator parameter at depth 0
+            depth, cut = 0, None
+            for i, ch in enumerate(inner):
+                depth += ch in "<(["
+                depth -= ch in ">)]"
+                if ch == "," and depth == 0:
+                    cut = i
+                    break
+            inner = inner[:cut] if cut is not None else inner
+            return Facts._ty_deref(inner) if m.group(1).endswith("Pin") else inner
+        return ty
+
+    @staticmethod
+    def _ty_head(ty):
+        ty = ty.strip()
+        while ty.startswith("&") or ty.startswith("*"):
+            ty = Facts._ty_deref(ty)
+        return ty.split("<", 1)[0]
+
+    def _typed_field_rename(self, d, typed):
+        """typed: {adt path: {new field name: old field name}}. Rewrites field projections / aggregate field lists of exactly
+        those structs (walking the place's type through derefs and known struct fields), leaving equally named fields of
+        other structs alone."""
+        fields = {}
+        for a in d["adts"]:
+            if len(a["variants"]) == 1:
+                fields[a["path"]] = {x["name"]: x["ty"] for x in a["variants"][0]["fields"]}
+        for a in d["adts"]:
+            m = typed.get(a["path"])
+            if m and len(a["variants"]) == 1:
+                for x in a["variants"][0]["fields"]:
+                    if x["name"] in m:
+                        self.renamed["%s.%s" % (a["path"], m[x["name"]])] = x["name"]
+                        x["name"] = m[x["name"]]
+
+        def fix_place(pl, locals_):
+            if not pl.get("p") or pl["l"] >= len(locals_):
+                return
+            ty = locals_[pl["l"]]
+            for i, e in enumerate(pl["p"]):
+                if ty is None:
+                    return
+                if e == "*":
+                    ty = Facts._ty_deref(ty)
+                elif isinstance(e, str) and e.startswith("."):
+                    head = Facts._ty_head(ty)
+                    name = e[1:]
+                    ft = fields.get(head, {}).get(name)
+                    if head in typed and name in typed[head]:
+                        pl["p"][i] = "." + typed[head][name]
+                    ty = ft
+                else:
+                    return               # downcasts, indexing: stop (fields behind them are not the private ones renamed here)
+
+        def walk(x, locals_):
+            if isinstance(x, list):
+                for e in x:
+                    walk(e, locals_)
+            elif isinstance(x, dict):
+                if isinstance(x.get("l"), int) and isinstance(x.get("p"), list):
+                    fix_place(x, locals_)
+                if x.get("k") == "agg" and x.get("adt") in typed and isinstance(x.get("fields"), list):
+                    x["fields"] = [typed[x["adt"]].get(n, n) for n in x["fields"]]
+                for v in x.values():
+                    if isinstance(v, (dict, list)):
+                        walk(v, locals_)
+        for fj in d["fns"]:
+            walk(fj["blocks"], fj["locals"])
+            for pj in fj.get("promoted", []):
+                walk(pj.get("blocks", []), pj.get("locals", []))
+        return d
+
     def _resolve_field_renames(self, crate, d, known_adts):
         """A private field of a struct of the confirmed tree that is gone, while the struct has exactly one new field of the
         same type, has been renamed: it gets its old name back everywhere (rules name fields such as `.danglings`)."""
@@ -775,6 +856,7 @@ class Facts:
             return d
         all_names = {x["name"] for a in d["adts"] for v in a["variants"] for x in v["fields"]}
         pairs = {}
+        typed = {}
         for a in d["adts"]:
             kf = known_adts.get(a["path"])
             if not kf or len(a["variants"]) != 1:
@@ -791,6 +873,10 @@ class Facts:
                     others = {x["name"] for b in d["adts"] if b is not a for v in b["variants"] for x in v["fields"]}
                     if c[0] not in others and n not in (all_names - {n}):
                         pairs[c[0]] = n
+                    else:
+                        typed.setdefault(a["path"], {})[c[0]] = n       # the name is used elsewhere too: rewrite by type
+        if typed:
+            d = self._typed_field_rename(d, typed)
         if not pairs:
             return d
         text = json.dumps(d)
